@@ -195,12 +195,14 @@ func Run(cc, sc *tls.Config, opt RunOpt) *Result {
 		select {
 		case o := <-cch:
 			co = &o
+			link.MarkGone(0)
 			if (o.err != nil || o.pan != "" || (!o.dataOK && !opt.NoData)) && !closed {
 				closed = true
 				link.CloseAll()
 			}
 		case o := <-sch:
 			so = &o
+			link.MarkGone(1)
 			if (o.err != nil || o.pan != "" || (!o.dataOK && !opt.NoData)) && !closed {
 				closed = true
 				link.CloseAll()
